@@ -116,6 +116,18 @@ def run(tier, seed):
         ev = PC.modules_event(b, texts, "name-coincidences-" + mode)
         ev["mode"] = mode
         events.append(ev)
+    # (e) every payload form whose type is syntactically evident (C12's list): the name the listener refers to resolves
+    from lib.checks import c12
+    # (forms with a map or a tuple are left to the graph cases: a project type inside Record<..> / [..] is the known
+    # finding C02-unprefixed-nested and is identified there by the generated type names)
+    psrc, _ = c12.payload_project([f for f in c12.PAYLOAD_FORMS if f[4] != "unknown" and '"hmap"' not in json.dumps(f[4]) and '"tup"' not in json.dumps(f[4])])
+    for mode in ("none", "zod"):
+        b, res, texts = PC.run_project(d, "payloads-" + mode, {"src/lib.rs": psrc}, mode=mode)
+        if not b:
+            raise C.ToolError("payload-forms project produced no bindings (%s): %s" % (mode, res.err[-400:]))
+        ev = PC.modules_event(b, texts, "payload-forms-" + mode)
+        ev["mode"] = mode
+        events.append(ev)
     evs = [{k: v for k, v in e.items() if k not in ("pack",)} for e in events]
     mism = PC.validate_project_trace(d, evs, "c02", chunk=30)
     for idx, why in mism:
